@@ -258,6 +258,7 @@ def r44(ctx):
 
 
 def run(ctx):
+    ctx.rule("R-4.7", "a restart keeps the persisted settings, among them the data file the rows are appended to", floor=4)
     ctx.rule("R-4.6", "the weights of a step are recorded before the restart file of that step is written (nothing write_toml serialises - frac, the P-matrix stream - changes after it)", floor=1)
     ctx.rule("R-4.1", "who may write traj_data[...]['frac']", floor=4)
     ctx.rule("R-4.2", "accumulate only for idle live paths, after the finished job was inserted", floor=1)
@@ -269,11 +270,13 @@ def run(ctx):
     ctx.attempt(r43, ctx)
     ctx.attempt(r44, ctx)
     ctx.attempt(r45, ctx)
-    from .shared import commit_is_final
+    from .shared import commit_is_final, restart_preserves_settings
     ctx.attempt(commit_is_final, ctx, "R-4.6")
+    ctx.attempt(restart_preserves_settings, ctx, "R-4.7", " - in particular output.data_file: rows written after the restart go to another file and the weights of the run no longer add up")
 
 
 VARIANTS = [
+    B("c04-restart-resets-data-file", SETUP, '        curr["restarted_from"] = config["current"]["cstep"]\n', '        curr["restarted_from"] = config["current"]["cstep"]\n        config["output"]["data_file"] = os.path.join(config["output"]["data_dir"], "infretis_data.txt")\n', "R-4.7", control=True, why="seeded C04_d"),
     B("c04-record-weights-after-commit", REPEX, "        # record weights\n        locked_trajs = self.locked_paths()\n        if self._last_prob is None:\n            self.prob\n        for idx, live in enumerate(self.live_paths()):\n            if live not in locked_trajs:\n                self.traj_data[live][\"frac\"] += self._last_prob[:-1][idx, :]\n\n", "", "R-4.6", control=True, why="seeded C04_c",
       also=[(REPEX, "        # save for possible restart\n        self.write_toml()\n\n        return md_items", "        # save for possible restart\n        self.write_toml()\n        locked_trajs = self.locked_paths()\n        if self._last_prob is None:\n            self.prob\n        for idx, live in enumerate(self.live_paths()):\n            if live not in locked_trajs:\n                self.traj_data[live][\"frac\"] += self._last_prob[:-1][idx, :]\n\n        return md_items")]),
     B("c04-frac-reset-in-sort", REPEX, "            self.swap(ens_idx, trj_idx)\n            needstomove", "            self.swap(ens_idx, trj_idx)\n            self.traj_data[self._trajs[ens_idx].path_number][\"frac\"] *= 0\n            needstomove", "R-4.1", control=True),
